@@ -1,0 +1,121 @@
+// Verification hooks (feature `verif_hooks`, off by default).
+//
+// Add-only re-exports of crate-internal items plus a few read-only dump helpers,
+// so that an external harness can drive the real implementation piece by piece.
+// Nothing in here is compiled unless the feature is enabled.
+
+pub use crate::compaction::drop_range::{OwnedBounds, Strategy as DropRangeStrategy};
+pub use crate::compaction::major::Strategy as MajorStrategy;
+pub use crate::compaction::state::{hidden_set::HiddenSet, CompactionState};
+pub use crate::compaction::stream::{
+    CompactionStream, DroppedKvCallback, StreamFilter, StreamFilterVerdict,
+};
+pub use crate::compaction::{Choice, CompactionStrategy, Input};
+pub use crate::key::InternalKey;
+pub use crate::key_range::KeyRange;
+pub use crate::tree::sealed::SealedMemtables;
+pub use crate::version::run::{Ranged, Run};
+pub use crate::version::{persist_version, SuperVersion, SuperVersions, Version};
+
+/// `optimize_runs` (private in `version::optimize`)
+pub fn optimize_runs<T: Clone + Ranged>(runs: Vec<Run<T>>) -> Vec<Run<T>> {
+    crate::version::optimize_runs_verif(runs)
+}
+
+/// One entry of the super version history, as plain data
+#[derive(Clone, Debug, Eq, PartialEq)]
+pub struct HistoryEntry {
+    pub seqno: crate::SeqNo,
+    pub version_id: u64,
+    pub active_memtable_id: crate::MemtableId,
+    pub sealed_memtable_ids: Vec<crate::MemtableId>,
+    pub table_ids: Vec<Vec<Vec<crate::TableId>>>,
+    pub blob_file_ids: Vec<u64>,
+}
+
+fn entry_of(sv: &SuperVersion) -> HistoryEntry {
+    HistoryEntry {
+        seqno: sv.seqno,
+        version_id: sv.version.id(),
+        active_memtable_id: sv.active_memtable.id(),
+        sealed_memtable_ids: sv.sealed_memtables.iter().map(|m| m.id()).collect(),
+        table_ids: sv
+            .version
+            .iter_levels()
+            .map(|lvl| {
+                lvl.iter()
+                    .map(|run| run.iter().map(crate::Table::id).collect())
+                    .collect()
+            })
+            .collect(),
+        blob_file_ids: sv.version.blob_files.iter().map(crate::BlobFile::id).collect(),
+    }
+}
+
+/// Dumps the whole super version history of a tree (oldest first)
+pub fn dump_history(tree: &crate::Tree) -> Vec<HistoryEntry> {
+    #[expect(clippy::expect_used)]
+    let lock = tree.version_history.read().expect("lock is poisoned");
+    lock.verif_iter().map(entry_of).collect()
+}
+
+/// Returns the super version a snapshot read at `seqno` would use
+pub fn super_version_for(tree: &crate::Tree, seqno: crate::SeqNo) -> SuperVersion {
+    tree.get_version_for_snapshot(seqno)
+}
+
+/// Returns the latest super version
+pub fn latest_super_version(tree: &crate::Tree) -> SuperVersion {
+    #[expect(clippy::expect_used)]
+    tree.version_history
+        .read()
+        .expect("lock is poisoned")
+        .latest_version()
+}
+
+/// Sealed memtables (oldest first) of a super version
+pub fn sealed_memtables(sv: &SuperVersion) -> Vec<std::sync::Arc<crate::Memtable>> {
+    sv.sealed_memtables.iter().cloned().collect()
+}
+
+/// The version of a super version
+pub fn version_of(sv: &SuperVersion) -> Version {
+    sv.version.clone()
+}
+
+/// The seqno of a super version
+pub fn seqno_of(sv: &SuperVersion) -> crate::SeqNo {
+    sv.seqno
+}
+
+/// Ids of the tables currently hidden by running compactions (sorted)
+pub fn hidden_table_ids(tree: &crate::Tree) -> Vec<crate::TableId> {
+    #[expect(clippy::expect_used)]
+    let state = tree.compaction_state.lock().expect("lock is poisoned");
+    let mut v: Vec<_> = state.hidden_set().set.iter().copied().collect();
+    v.sort_unstable();
+    v
+}
+
+/// Builds a history from `(seqno, version id)` pairs (for driving `maintenance` / `get_version_for_snapshot`)
+pub fn make_history(entries: &[(crate::SeqNo, u64)]) -> Option<SuperVersions> {
+    let mut it = entries.iter();
+    let &(s0, v0) = it.next()?;
+    let mk = |s: crate::SeqNo, v: u64| SuperVersion {
+        active_memtable: std::sync::Arc::new(crate::Memtable::new(0)),
+        sealed_memtables: std::sync::Arc::default(),
+        version: Version::new(v, crate::TreeType::Standard),
+        seqno: s,
+    };
+    let mut h = SuperVersions::new(Version::new(v0, crate::TreeType::Standard));
+    h.replace_latest_version(mk(s0, v0));
+    for &(s, v) in it {
+        h.append_version(mk(s, v));
+    }
+    Some(h)
+}
+
+/// `(seqno, version id)` of every history entry (oldest first)
+pub fn history_pairs(h: &SuperVersions) -> Vec<(crate::SeqNo, u64)> {
+    h.verif_iter().map(|sv| (sv.seqno, sv.version.id())).collect()
+}
